@@ -452,6 +452,22 @@ def w_ipv6_extension_header_checksum():
     return "FAILS with -c the export of a capture whose IPv6 packets carry a hop-by-hop header (all checksums valid) shrinks from %d to %d bytes" % (len(out0 or b""), len(out or b""))
 
 
+def w_ssl3_sha384_server_hello():
+    impl, tlsgen, table, _ = env()
+    from ref import capgen, readback, synth
+    rng = random.Random(4)
+    s = tlsgen.single(rng, table, 0xC028, "TLS12", collections.Counter(), schedule="records", nrec=2, reclen=30, shape="full", hs12_cuts=None)
+    pk = [dict(p) for p in s.packets]
+    for i, p in enumerate(pk):
+        f = readback.parse_frame(p["frame"])
+        pl = bytearray(f["payload"])
+        if f["kind"] == "tcp" and p["isserver"] and len(pl) > 9 and pl[0] == 22 and pl[5] == 2:
+            pl[1:3] = b"\x03\x00"           # two bytes overwritten: the record version of the ServerHello record now says SSL 3.0
+            pk[i] = dict(p, frame=synth.tcp_frame(f["smac"], f["dmac"], f["src"], f["dst"], f["sport"], f["dport"], f["seq"], f["ack"], f["flags"], bytes(pl)))
+            break
+    return expect_no_crash(impl, capgen.to_pcapng(pk), s.keylog)
+
+
 def w_short_cid_direction():
     impl, *_ = env()
     from ref import readback
@@ -512,6 +528,7 @@ W = {  # name: (property, commit, tag, function, one-line description)
     "tls-handshake-header-cut": ("C01", "d053156", "handshake-header-cut", w_tls_handshake_header_cut, "TLS 1.0 Certificate whose 4-byte message header is cut by a record boundary after 2 bytes: the next record started with 0x02 and was taken for a ServerHello, nothing exported"),
     "non-ascii-comment-in-dsb": ("C09", "e751caa", "keylog-non-ascii", w_non_ascii_comment, "a decryption secrets block (strict ASCII decode) or key-log file (locale codec) with non-ASCII bytes in a comment line aborted the run with UnicodeDecodeError"),
     "ipv6-extension-header-checksum": ("C11", "ef93a67", "ipv6-ext-pseudo-header", w_ipv6_extension_header_checksum, "with -c every IPv6 TCP/UDP packet that carries an extension header was ignored although its checksum is correct (ip.nxt, the first extension header's type, used in the pseudo-header)"),
+    "ssl3-sha384-server-hello": ("C03", "7a6c0b7", "key-derivation-unprotected", w_ssl3_sha384_server_hello, "two bytes of a ServerHello overwritten (record version 0x0300) with a SHA-384 suite: the SSL 3.0 key block needs more than ten PRF rounds, IndexError in key derivation aborted the run"),
     "legacy-nanosecond-pcap": ("C12", "7467fb4", "legacy-ns", w_legacy_nano, "legacy pcap with nanosecond magic: TypeError in the writer"),
 }
 
